@@ -41,6 +41,10 @@ type Desc struct {
 	PaySize  int    // -1: nil wire, -2: non-nil wire with zero buffers, >=0: that many bytes
 	PaySplit string // "" one buffer; otherwise a split class, see Buffers
 	Signer   int    // -1 none, else index into Signers()
+	// Ext: a signer outside the fixed Signers() catalog (signature-size dimension, ext_sigsize.go:
+	// RSA keys generated at check time, harness-defined signers of a shipped signature type with a
+	// chosen estimated and actual signature length). Takes precedence over Signer.
+	Ext *SignerSpec
 }
 
 func p64(v uint64) *uint64        { return &v }
@@ -112,7 +116,9 @@ func (d *Desc) String() string {
 			sb.WriteString("(" + d.PaySplit + ")")
 		}
 	}
-	if d.Signer >= 0 {
+	if d.Ext != nil {
+		sb.WriteString(" signer=" + d.Ext.Name)
+	} else if d.Signer >= 0 {
 		sb.WriteString(" signer=" + Signers()[d.Signer].Name)
 	}
 	return sb.String()
@@ -345,7 +351,12 @@ func BuildWith(d *Desc, pool *SignerPool) (b *Built) {
 	name := MkName(d.Name, 0)
 	b.Name = MkName(d.Name, 0)
 	var signer ndn.Signer
-	if d.Signer >= 0 {
+	if d.Ext != nil {
+		sp := *d.Ext
+		b.SignerSp = &sp
+		b.Rec = &RecSigner{Inner: sp.New()}
+		signer = b.Rec
+	} else if d.Signer >= 0 {
 		sp := Signers()[d.Signer]
 		b.SignerSp = &sp
 		if pool != nil {
